@@ -5,17 +5,20 @@
 From Coq Require Export List Arith Bool.
 Export ListNotations.
 
-Inductive ev := EW (id : nat) | ES.
+Section Q.
+Variable A : Type.            (* a queued page write (page id, buffer) *)
+
+Inductive ev := EW (a : A) | ES.
 
 Record wq := {
-  q_sched : list nat;       (* queued page writes (page ids), oldest first *)
+  q_sched : list A;         (* queued page writes, oldest first *)
   q_fsync : list nat;       (* queued sync requests: number of writes scheduled between the previous request and this one *)
   q_pending : nat;          (* writes scheduled since the last sync request *)
   q_published : nat }.      (* writes handed to the goroutine since the last sync it executed *)
 
 Definition wq_init : wq := {| q_sched := []; q_fsync := []; q_pending := 0; q_published := 0 |}.
 
-Definition wq_schedule (s : wq) (id : nat) : wq :=
+Definition wq_schedule (s : wq) (id : A) : wq :=
   {| q_sched := q_sched s ++ [id]; q_fsync := q_fsync s; q_pending := S (q_pending s); q_published := q_published s |}.
 
 Definition wq_sync (s : wq) : wq :=
@@ -23,7 +26,7 @@ Definition wq_sync (s : wq) : wq :=
 
 (* nextCommand(buf) with len(buf) = B: None = nothing queued (the goroutine waits); otherwise the page writes of the
    batch, whether the batch ends with a sync, and the new state *)
-Definition wq_next (B : nat) (s : wq) : option (list nat * bool * wq) :=
+Definition wq_next (B : nat) (s : wq) : option (list A * bool * wq) :=
   let max0 := length (q_sched s) in
   match q_sched s, q_fsync s with
   | [], [] => None
@@ -43,11 +46,11 @@ Definition wq_next (B : nat) (s : wq) : option (list nat * bool * wq) :=
   end.
 
 (* what the goroutine does with a command: the writes (sorted by page id inside the batch: Model/Writer.v), then the sync *)
-Definition cmd_events (taken : list nat) (do_sync : bool) : list ev :=
+Definition cmd_events (taken : list A) (do_sync : bool) : list ev :=
   map EW taken ++ (if do_sync then [ES] else []).
 
 (* a run: the transactions schedule writes and syncs, the goroutine asks for commands with any buffer size >= 1 *)
-Inductive qop := QW (id : nat) | QS | QN (B : nat).
+Inductive qop := QW (id : A) | QS | QN (B : nat).
 
 Fixpoint wq_run (s : wq) (ops : list qop) : wq * list ev (* executed *) * list ev (* scheduled *) :=
   match ops with
@@ -63,7 +66,7 @@ Fixpoint wq_run (s : wq) (ops : list qop) : wq * list ev (* executed *) * list e
 
 (* the variant of seeded change C01f: the test "is the next sync due" looks at all queued writes, the clamp to the
    buffer size comes afterwards *)
-Definition wq_next_late_clamp (B : nat) (s : wq) : option (list nat * bool * wq) :=
+Definition wq_next_late_clamp (B : nat) (s : wq) : option (list A * bool * wq) :=
   let max0 := length (q_sched s) in
   match q_sched s, q_fsync s with
   | [], [] => None
@@ -80,3 +83,23 @@ Definition wq_next_late_clamp (B : nat) (s : wq) : option (list nat * bool * wq)
             {| q_sched := skipn (Nat.min B max2) (q_sched s); q_fsync := fs'; q_pending := q_pending s;
                q_published := if do_sync then 0 else q_published s + length taken |})
   end.
+
+(* the commands of a run as batches: (page writes, ends with a sync) *)
+Fixpoint wq_cmds (s : wq) (ops : list qop) : list (list A * bool) :=
+  match ops with
+  | [] => []
+  | QW id :: rest => wq_cmds (wq_schedule s id) rest
+  | QS :: rest => wq_cmds (wq_sync s) rest
+  | QN B :: rest =>
+      match wq_next B s with
+      | None => wq_cmds s rest
+      | Some (taken, do_sync, s1) => (taken, do_sync) :: wq_cmds s1 rest
+      end
+  end.
+End Q.
+
+Arguments EW {A}. Arguments ES {A}.
+Arguments q_sched {A}. Arguments q_fsync {A}. Arguments q_pending {A}. Arguments q_published {A}.
+Arguments wq_init {A}. Arguments wq_schedule {A}. Arguments wq_sync {A}. Arguments wq_next {A}.
+Arguments cmd_events {A}. Arguments QW {A}. Arguments QS {A}. Arguments QN {A}. Arguments wq_run {A}.
+Arguments wq_next_late_clamp {A}. Arguments wq_cmds {A}.
